@@ -507,9 +507,14 @@ func (a *adapter) Apply(s engine.Step) (engine.Fields, error) {
 			rerr = rm.Finalise()
 		}
 		f["rerr"], f["redo"] = errStr(rerr), obsOf(rm)
-		// ... and the block is saved; a fresh manager on the new block reads back what later blocks will build on
-		h := blk.Hash()
-		serr := a.db.SetBlock(h, blk)
+		// ... and the block is saved; a fresh manager on the new block reads back what later blocks will build on.
+		// (Nothing is ever made stable in this database, and the store only takes parentless blocks then: the block
+		// is stored without a parent link, so only the accounts Save wrote - those with published logs - can be
+		// read back; the trace specification compares exactly those.)
+		sblk := &types.Block{ChangeLogs: logs}
+		sblk.SetHeader(&types.Header{Height: 0, Time: hd.Time, VersionRoot: hd.VersionRoot, LogRoot: logs.MerkleRootSha()})
+		h := sblk.Hash()
+		serr := a.db.SetBlock(h, sblk)
 		if serr == nil {
 			serr = a.am.Save(h)
 		}
